@@ -79,6 +79,7 @@ where
     if !rebuild then
       ⟨d, some (d.index == .opens .current)⟩
     else
+      if hit cp 6 then ⟨d, none⟩ else                               -- entering the rebuild block
       -- the metadata stops vouching for the index before it is rewritten in place
       let metaExists := d.md != .absent
       let d := if metaExists then { d with md := .absent } else d
@@ -205,7 +206,7 @@ def event (d : Dir) : Event → Dir
 def history (d : Dir) (es : List Event) : Dir := es.foldl event d
 
 /-- The crash points the hooks define. -/
-def crashPoints : List Nat := [0, 1, 2, 3, 4, 5, 10, 11, 12, 13, 14, 15, 16, 17]
+def crashPoints : List Nat := [0, 1, 2, 3, 4, 5, 6, 10, 11, 12, 13, 14, 15, 16, 17]
 
 def MetaSt.show : MetaSt → String
   | .absent => "absent"
